@@ -2,6 +2,7 @@
 import random
 import warnings
 
+import coqlit as L
 import histgen
 import pyobs
 import world
@@ -215,6 +216,57 @@ def series_default_probes(rng, n):
                     'pyfail': problem, 'oracle': 'true', 'model': 'true', 'nontrivial': True,
                     'sig': 'probe|series_default|%d' % k, 'tags': ['probe', 'probe:series_default']})
     return out
+
+
+def getitem_dispatch_probe():
+    """One key of every class: the isinstance facts of the running interpreter and the operation dm[key] performed,
+    judged in Coq against Model/Core.key_facts and the regenerated k_getitem_dispatch."""
+    world._imports()
+    from datamatrix import DataMatrix
+    from datamatrix._datamatrix._basecolumn import BaseColumn
+    from datamatrix._datamatrix._row import Row
+    try:
+        from collections.abc import Sequence
+    except ImportError:
+        from collections import Sequence
+    obs = []
+    problem = None
+    with warnings.catch_warnings():
+        warnings.simplefilter('ignore')
+        dm = DataMatrix(length=3)
+        dm.a = 1, 2, 3
+        dm.b = 'x', 'y', 'z'
+        keys = [('KeyColumn', dm.a), ('KeyStr', 'a'), ('KeyInt', 1), ('KeyBool', True), ('KeySlice', slice(0, 2)),
+                ('KeyNames', ['a', dm.b]), ('KeyEmptySeq', []), ('KeyInts', [0, 2]), ('KeyOther', 2.5), ('KeyOther', None)]
+        for cls, key in keys:
+            facts = (isinstance(key, BaseColumn), isinstance(key, str), isinstance(key, int), isinstance(key, slice),
+                     isinstance(key, Sequence),
+                     bool(isinstance(key, Sequence) and all(isinstance(v, (str, BaseColumn)) for v in key)))
+            try:
+                r = dm[key]
+                if isinstance(r, BaseColumn):
+                    d = 0 if cls == 'KeyColumn' else 1
+                    if r is not dm._cols['a']:
+                        problem = 'dm[%s key] returned another column' % cls
+                elif isinstance(r, Row):
+                    d = 2
+                elif isinstance(r, DataMatrix):
+                    if list(r.column_names) != ['a', 'b']:
+                        d = 4 if len(r) == 3 else -1
+                    else:
+                        d = 3 if isinstance(key, slice) else (4 if (len(r) == 3 and cls == 'KeyNames') else 5)
+                else:
+                    d = -1
+            except KeyError:
+                d = 6
+            except Exception as e:      # noqa: BLE001
+                d = -2
+                problem = 'dm[%s key] raised %r' % (cls, e)
+            obs.append('(%s, (%s), %s)' % (cls, ', '.join(L.boolean(f) for f in facts), L.z(d)))
+    import coqlit as L2
+    return {'input': {'probe': 'getitem_dispatch', 'seed': 0}, 'observed': {'problem': problem, 'obs': obs},
+            'pyfail': problem, 'oracle': 'true', 'model': '(getitem_ok %s)' % L2.lst(obs), 'nontrivial': True,
+            'sig': 'probe|getitem_dispatch', 'tags': ['probe', 'probe:getitem_dispatch']}
 
 
 class ProbeMixin:
